@@ -522,11 +522,20 @@ def check_message_reset(repo: Repo, rep: Report) -> None:
         return
     start = [m for m, l in tests[0].succ if l == "true"]
 
+    pci = dm.classes.get("DIMSEServiceProvider")
+
+    def _resets(stmts):
+        return any(isinstance(x, ast.Assign) and norm(x.targets[0]) == "self.message" and norm(x.value) in ("None", "DIMSEMessage()") for x in stmts)
+
     def via(n):
         if n.kind != "stmt":
             return False
-        if isinstance(n.ast, ast.Assign) and norm(n.ast.targets[0]) == "self.message" and norm(n.ast.value) in ("None", "DIMSEMessage()"):
+        if _resets([n.ast]):
             return True
+        # ... or a method of the provider that does it unconditionally
+        for c in calls_at(n):
+            if isinstance(c.func, ast.Attribute) and norm(c.func.value) == "self" and pci is not None and c.func.attr in pci.methods and _resets(body_nodoc(pci.methods[c.func.attr])):
+                return True
         return any(norm(c.func).endswith("event_queue.put") and c.args and norm(c.args[0]) == "'Evt19'" for c in calls_at(n))
 
     ok, w = (True, [])
